@@ -240,19 +240,81 @@ def dialect_class(case):
     return out
 
 
-def judge(ctx, case, exp, open_fn, model_table=None, expect_n_node=None, centres=None, free_numbering=False):
+def snapshot(src):
+    """content of an in-memory source (values, dtypes, dims, attributes), to detect a reader writing into it"""
+    import xarray as xr
+
+    def arr(v):
+        a = np.asarray(v)
+        return (str(a.dtype), a.shape, a.tobytes())
+
+    if src is None:
+        return None
+    if isinstance(src, xr.Dataset):
+        out = {str(k): arr(v.values) + (tuple(v.dims), repr(sorted((str(a), repr(b)) for a, b in v.attrs.items())))
+               for k, v in src.variables.items()}
+        out["<global attrs>"] = repr(sorted((str(a), repr(b)) for a, b in src.attrs.items()))
+        return out
+    if isinstance(src, dict):
+        return {str(k): (arr(v) if isinstance(v, np.ndarray) else repr(v)) for k, v in src.items()}
+    if isinstance(src, np.ndarray):
+        return {"<array>": arr(src)}
+    return {"<object>": repr(src)}
+
+
+def snapshot_diff(a, b):
+    return sorted(k for k in set(a) | set(b) if a.get(k) != b.get(k))
+
+
+def judge(ctx, case, exp, open_fn, model_table=None, expect_n_node=None, centres=None, source=None, others=()):
+    """Judge a source: its first opening, and — when the source is an in-memory object — every further
+    opening of the SAME object (`others`: openings of another kind, e.g. the MPAS dual; then the first
+    kind again), the first Grid once more after the later openings, and the source itself (a reader must
+    not write into what it was given: that is what makes a second decode wrong)."""
+    fmt = case["fmt"]
+    before = snapshot(source)
+    g1 = judge_once(ctx, case, exp, open_fn, model_table, expect_n_node, centres)
+    if g1 is None or source is None:
+        return g1
+    reported = []
+
+    def check_source(when):
+        ch = snapshot_diff(before, snapshot(source))
+        if ch and not reported:
+            reported.append(when)
+            ctx.fail(f"C01/{fmt}/source-modified-by-reading",
+                     f"{fmt}: the reader modified the caller's in-memory source ({', '.join(ch[:6])}) {when}; a second opening of the "
+                     "same object decodes already-converted tables", case, dict(changed=ch), None, ["source_unchanged"])
+
+    check_source("during the first opening")
+    ctx.hit("reopened-same-source")
+    for o in others:
+        judge_once(ctx, case, o["exp"], o["open_fn"], o.get("model_table"), o.get("expect_n_node"), o.get("centres"),
+                   phase="other-opening")
+        check_source("during the opening of the other mesh")
+    judge_once(ctx, case, exp, open_fn, model_table, expect_n_node, centres, phase="second-opening")
+    check_source("during the second opening")
+    judge_once(ctx, case, exp, lambda: g1, model_table, expect_n_node, centres, phase="first-grid-after-reopening")
+    return g1
+
+
+def judge_once(ctx, case, exp, open_fn, model_table=None, expect_n_node=None, centres=None, phase=None):
     """exp = dict(faces, lon, lat) in source numbering; open_fn() -> Grid"""
     d = ctx.driver
     fmt = case["fmt"]
     cls_sig = sig_of(dict(fmt=fmt, dialect=dialect_class(case)))
     faces = exp["faces"]
-    nontrivial = len(faces) > 1 or len(set(map(len, faces))) > 1
-    key = (fmt, case.get("dialect"), case.get("via_file"), faces[:40], len(faces), case.get("path"))
-    small = len(faces) <= 4
-    ctx.case(key, nontrivial=nontrivial, sample=(dict(case=case) if small and fmt != "file" else None))
-    ctx.hit("fmt=" + fmt)
-    for k, v in dialect_class(case).items():
-        ctx.hit(f"{fmt}:{k}={v}")
+    if phase is None:
+        nontrivial = len(faces) > 1 or len(set(map(len, faces))) > 1
+        key = (fmt, case.get("dialect"), case.get("via_file"), faces[:40], len(faces), case.get("path"))
+        small = len(faces) <= 4
+        ctx.case(key, nontrivial=nontrivial, sample=(dict(case=case) if small and fmt != "file" else None))
+        ctx.hit("fmt=" + fmt)
+        for k, v in dialect_class(case).items():
+            ctx.hit(f"{fmt}:{k}={v}")
+    else:
+        ctx.hit("phase=" + phase)
+        cls_sig = fmt + "/" + phase  # consequences of one cause: not split by dialect
     try:
         g = open_fn()
         o = observe(g)
@@ -328,7 +390,7 @@ def judge(ctx, case, exp, open_fn, model_table=None, expect_n_node=None, centres
     # correspondence with the Lean reader model (rows up to the start corner)
     if model_table is not None and not bad:
         if canon_rows(o["table"]) != canon_rows(model_table):
-            ctx.mismatch(f"C01/{fmt}/table", case, impl, model)
+            ctx.mismatch(f"C01/{fmt}/table" + ("" if phase is None else "/" + phase), case, impl, model)
         elif o["table"] == model_table:
             ctx.hit("identical-to-model")
     return g
@@ -409,13 +471,13 @@ def case_ugrid(ctx, case, sc):
         with xr.open_dataset(path) as seen:
             v = seen[nm["conn"]]
             seen_arr, seen_at = np.asarray(v.values), dict(v.attrs)
-        src = path
+        src, source = path, None
     else:
-        seen_arr, seen_at, src = arr, at, ds
+        seen_arr, seen_at, src, source = arr, at, ds, ds
     mt = dec_res(d.ask("C01.ugrid", STORE_CODE[store_of(seen_arr.dtype)], enc_optcell(seen_at.get("_FillValue")),
                        enc_optint(seen_at.get("start_index")), enc_raw(seen_arr)))
     exp = dict(faces=faces, lon=case["lon"], lat=case["lat"])
-    g = judge(ctx, case, exp, lambda: ux.open_grid(src), mt, expect_n_node=n)
+    g = judge(ctx, case, exp, lambda: ux.open_grid(src), mt, expect_n_node=n, source=source)
     if g is not None and edges is not None and (dl["declared"] or any(0 in e for e in edges)):
         cls_sig = sig_of(dict(fmt="ugrid", dialect=dialect_class(case)))
         try:
@@ -455,7 +517,7 @@ def case_topology(ctx, case, sc):
         open_fn = lambda: ux.open_grid(kw)
     else:
         open_fn = lambda: ux.Grid.from_topology(**kw)
-    judge(ctx, case, dict(faces=faces, lon=case["lon"], lat=case["lat"]), open_fn, mt, expect_n_node=n)
+    judge(ctx, case, dict(faces=faces, lon=case["lon"], lat=case["lat"]), open_fn, mt, expect_n_node=n, source=kw)
 
 
 def pad_tail(rng_vals, f, w, mode, n, one_based=1):
@@ -506,21 +568,21 @@ def case_mpas(ctx, case, sc):
     faces, n = case["faces"], len(case["lon"])
     w = max(map(len, faces)) + dl["extra_w"]
     gv = dl["garbage"]
-    voc = np.array([[v + 1 for v in f] + pad_tail(gv, f, w, dl["pad"], n) for f in faces], dtype=np.int32)
-    nedges = np.array([len(f) for f in faces], dtype=np.int32)
+    it = NP_STORE[dl.get("store", "i32")]
+    voc = np.array([[v + 1 for v in f] + pad_tail(gv, f, w, dl["pad"], n) for f in faces], dtype=it)
+    nedges = np.array([len(f) for f in faces], dtype=it)
     inc = incidence(faces, n)
-    # cellsOnVertex: for the dual the cells around a vertex in counter-clockwise order
+    # cellsOnVertex: the cells around a vertex in counter-clockwise order whenever every vertex has a
+    # complete ring (then the same dataset describes the primal AND the dual mesh)
     am = meshes.AMesh(faces, xyz_of(case["lon"], case["lat"]), True, "src")
-    if dl["dual"]:
-        dual = meshes.dual_of(am)
-        cov_rows = dual.faces
-        if len(cov_rows) != n:
-            ctx.hit("outside-quantifier(dual needs valence>=3)")
-            return
-    else:
-        cov_rows = inc
+    dual = meshes.dual_of(am) if all(len(r) >= 3 for r in inc) and dl.get("closed", dl["dual"]) else None
+    has_dual = dual is not None and len(dual.faces) == n
+    if dl["dual"] and not has_dual:
+        ctx.hit("outside-quantifier(dual needs valence>=3)")
+        return
+    cov_rows = dual.faces if has_dual else inc
     vd = max(max(map(len, cov_rows)), 3)
-    cov = np.array([[c + 1 for c in r] + [0] * (vd - len(r)) for r in cov_rows], dtype=np.int32)
+    cov = np.array([[c + 1 for c in r] + [0] * (vd - len(r)) for r in cov_rows], dtype=it)
     cent = np.array([am.xyz[f].mean(axis=0) for f in faces])
     cent /= np.linalg.norm(cent, axis=1, keepdims=True)
     clon, clat = np.arctan2(cent[:, 1], cent[:, 0]), np.arcsin(np.clip(cent[:, 2], -1, 1))
@@ -534,40 +596,43 @@ def case_mpas(ctx, case, sc):
     ds["latVertex"] = xr.DataArray(np.radians(np.asarray(case["lat"], float)), dims=["nVertices"])
     ds["lonCell"] = xr.DataArray(two_pi(clon), dims=["nCells"])
     ds["latCell"] = xr.DataArray(clat, dims=["nCells"])
-    carried = {}
+    carried, area = {}, None
     if dl.get("tables") and not dl["dual"]:
-        voe = np.array([[a + 1, b + 1] for a, b in edges], dtype=np.int32)
-        coe = np.array([[r[0] + 1, (r[1] + 1) if len(r) > 1 else 0] for r in ef], dtype=np.int32)
-        eoc = np.array([[e + 1 for e in r] + pad_tail(gv, r, w, dl["pad"], len(edges)) for r in fe], dtype=np.int32)
+        voe = np.array([[a + 1, b + 1] for a, b in edges], dtype=it)
+        coe = np.array([[r[0] + 1, (r[1] + 1) if len(r) > 1 else 0] for r in ef], dtype=it)
+        eoc = np.array([[e + 1 for e in r] + pad_tail(gv, r, w, dl["pad"], len(edges)) for r in fe], dtype=it)
         ds["verticesOnEdge"] = xr.DataArray(voe, dims=["nEdges", "TWO"])
         ds["cellsOnEdge"] = xr.DataArray(coe, dims=["nEdges", "TWO"])
         ds["edgesOnCell"] = xr.DataArray(eoc, dims=["nCells", "maxEdges"])
-        ds["areaCell"] = xr.DataArray(np.arange(1, len(faces) + 1, dtype=float) * 0.125, dims=["nCells"])
-        carried = dict(edge_node_connectivity=("z", voe), edge_face_connectivity=("z", coe),
-                       face_edge_connectivity=("p", eoc), node_face_connectivity=("z", cov))
+        area = np.arange(1, len(faces) + 1, dtype=float) * 0.125
+        ds["areaCell"] = xr.DataArray(area.copy(), dims=["nCells"])
+        # expectations are computed BEFORE any opening (the reader must not, but might, write into the source)
+        for name, kind, tab in (("edge_node_connectivity", "z", voe), ("edge_face_connectivity", "z", coe),
+                                ("face_edge_connectivity", "p", eoc), ("node_face_connectivity", "z", cov)):
+            if kind == "p":
+                carried[name] = common.Tok(d.ask("C01.mpas", enc_rows(tab.tolist()), enc_ints(nedges.tolist()))).rows()
+            else:
+                carried[name] = common.Tok(d.ask("C01.mpasz", enc_rows(tab.tolist()))).rows()
     if case.get("via_file"):
         path = sc.path(".nc")
         ds.to_netcdf(path)
-        src = path
+        src, source = path, None
     else:
-        src = ds
-    if dl["dual"]:
-        mt = common.Tok(d.ask("C01.mpasz", enc_rows(cov.tolist()))).rows()
-        exp = dict(faces=cov_rows, lon=np.degrees(clon), lat=np.degrees(clat))
-        g = judge(ctx, case, exp, lambda: ux.open_grid(src, use_dual=True), mt, expect_n_node=len(faces),
-                  centres=(np.asarray(case["lon"], float), np.asarray(case["lat"], float)))
-    else:
-        mt = common.Tok(d.ask("C01.mpas", enc_rows(voc.tolist()), enc_ints(nedges.tolist()))).rows()
-        exp = dict(faces=faces, lon=case["lon"], lat=case["lat"])
-        g = judge(ctx, case, exp, lambda: ux.open_grid(src), mt, expect_n_node=n, centres=(np.degrees(clon), np.degrees(clat)))
+        src = source = ds
+    dual_open = dict(exp=dict(faces=cov_rows, lon=np.degrees(clon), lat=np.degrees(clat)),
+                     open_fn=lambda: ux.open_grid(src, use_dual=True),
+                     model_table=common.Tok(d.ask("C01.mpasz", enc_rows(cov.tolist()))).rows() if has_dual else None,
+                     expect_n_node=len(faces), centres=(np.asarray(case["lon"], float), np.asarray(case["lat"], float)))
+    primal_open = dict(exp=dict(faces=faces, lon=case["lon"], lat=case["lat"]), open_fn=lambda: ux.open_grid(src),
+                       model_table=common.Tok(d.ask("C01.mpas", enc_rows(voc.tolist()), enc_ints(nedges.tolist()))).rows(),
+                       expect_n_node=n, centres=(np.degrees(clon), np.degrees(clat)))
+    first, other = (dual_open, primal_open) if dl["dual"] else (primal_open, dual_open)
+    g = judge(ctx, case, first["exp"], first["open_fn"], first["model_table"], expect_n_node=first["expect_n_node"],
+              centres=first["centres"], source=source, others=[other] if has_dual else [])
     if g is None:
         return
     cls_sig = sig_of(dict(fmt="mpas", dialect=dialect_class(case)))
-    for name, (kind, tab) in carried.items():
-        if kind == "p":
-            want = common.Tok(d.ask("C01.mpas", enc_rows(tab.tolist()), enc_ints(nedges.tolist()))).rows()
-        else:
-            want = common.Tok(d.ask("C01.mpasz", enc_rows(tab.tolist()))).rows()
+    for name, want in carried.items():
         try:
             v = getattr(g, name)
             got = [[int(x) for x in r] for r in np.asarray(v.values).tolist()]
@@ -582,7 +647,7 @@ def case_mpas(ctx, case, sc):
     if carried:
         try:
             fa = np.asarray(g.face_areas.values, float)
-            if not np.array_equal(fa, ds["areaCell"].values):
+            if not np.array_equal(fa, area):
                 ctx.fail(f"C01/{cls_sig}/carried/face_areas", "mpas: supplied areaCell is not carried over", case, fa[:20], None, ["carried_areas"])
         except Exception as e:
             ctx.fail(f"C01/{cls_sig}/carried/face_areas/raises", f"mpas: face_areas raises {type(e).__name__}", case)
@@ -622,14 +687,14 @@ def case_esmf(ctx, case, sc):
         ds.to_netcdf(path)
         with xr.open_dataset(path) as seen:
             sa = seen["elementConn"].attrs.get("start_index")
-        src = path
+        src, source = path, None
     else:
-        sa, src = at.get("start_index"), ds
+        sa, src, source = at.get("start_index"), ds, ds
     # the padding is arbitrary for the model (NaN after file decoding becomes an arbitrary int)
     mt = common.Tok(d.ask("C01.esmf", enc_optint(sa), enc_rows(conn.astype(np.int64).tolist()), enc_ints(num.tolist()))).rows()
     exp = dict(faces=faces, lon=case["lon"], lat=case["lat"])
     judge(ctx, case, exp, lambda: ux.open_grid(src), mt, expect_n_node=n,
-          centres=(clon, clat) if dl.get("centres", True) else None)
+          centres=(clon, clat) if dl.get("centres", True) else None, source=source)
 
 
 def case_exodus(ctx, case, sc):
@@ -650,20 +715,20 @@ def case_exodus(ctx, case, sc):
         ds["coor_names"] = xr.DataArray(np.array([b"x", b"y", b"z"]), dims=["num_dim"])
     tabs = []
     for i, b in enumerate(blocks):
-        t = np.array([[v + 1 for v in f] for f in b], dtype=np.int32)
+        t = np.array([[v + 1 for v in f] for f in b], dtype=NP_STORE[dl.get("store", "i32")])
         tabs.append(t)
         ds[f"connect{i + 1}"] = xr.DataArray(t, dims=[f"num_el_in_blk{i + 1}", f"num_nod_per_el{i + 1}"],
                                             attrs=dict(elem_type={3: "TRI", 4: "QUAD"}.get(t.shape[1], "NSIDED")))
     if case.get("via_file"):
         path = sc.path(".exo")
         ds.to_netcdf(path)
-        src = path
+        src, source = path, None
     else:
-        src = ds
+        src = source = ds
     mt = common.Tok(d.ask("C01.exodus", len(tabs), *[enc_rows(t.tolist()) for t in tabs])).rows()
     faces = [f for b in blocks for f in b]
     exp = dict(faces=faces, lon=case["lon"], lat=case["lat"])
-    judge(ctx, case, exp, lambda: ux.open_grid(src), mt, expect_n_node=n)
+    judge(ctx, case, exp, lambda: ux.open_grid(src), mt, expect_n_node=n, source=source)
 
 
 def case_scrip(ctx, case, sc):
@@ -691,9 +756,9 @@ def case_scrip(ctx, case, sc):
     if case.get("via_file"):
         path = sc.path(".nc")
         ds.to_netcdf(path)
-        src = path
+        src, source = path, None
     else:
-        src = ds
+        src = source = ds
     # Lean model on order-preserving integer keys of the corner coordinates
     def enc_keys(rows_lon, rows_lat):
         return " ".join([str(len(rows_lon))] + [" ".join([str(len(r1))] + [f"{key_of_float(a)} {key_of_float(b)}" for a, b in zip(r1, r2)])
@@ -710,7 +775,7 @@ def case_scrip(ctx, case, sc):
     mt = tk.rows()
     exp = dict(faces=faces, lon=case["lon"], lat=case["lat"])
     npos = len({(key_of_float(a), key_of_float(b)) for a, b in zip(lon.tolist(), lat.tolist())})
-    judge(ctx, case, exp, lambda: ux.open_grid(src), mt, expect_n_node=npos if len(nodes) == npos else None, centres=(cl, ca))
+    judge(ctx, case, exp, lambda: ux.open_grid(src), mt, expect_n_node=npos if len(nodes) == npos else None, centres=(cl, ca), source=source)
 
 
 def case_vertices(ctx, case, sc):
@@ -732,7 +797,7 @@ def case_vertices(ctx, case, sc):
     src = arr if dl.get("api") == "array" else arr.tolist()
     exp = dict(faces=faces, lon=case["lon"], lat=case["lat"])
     npos = len({(key_of_float(a), key_of_float(b)) for a, b in zip(lon.tolist(), lat.tolist())})
-    judge(ctx, case, exp, lambda: ux.open_grid(src, latlon=True), mt, expect_n_node=npos)
+    judge(ctx, case, exp, lambda: ux.open_grid(src, latlon=True), mt, expect_n_node=npos, source=src)
 
 
 def case_geos(ctx, case, sc):
@@ -755,13 +820,13 @@ def case_geos(ctx, case, sc):
     if case.get("via_file"):
         path = sc.path(".nc4")
         ds.to_netcdf(path)
-        src = path
+        src, source = path, None
     else:
-        src = ds
+        src = source = ds
     mt = common.Tok(d.ask("C01.geos", nf, nx, ny)).rows()
     exp = dict(faces=case["faces"], lon=case["lon"], lat=case["lat"])
     judge(ctx, case, exp, lambda: ux.open_grid(src), mt, expect_n_node=nf * nx * ny,
-          centres=(cl, ca) if dl.get("centres", True) else None)
+          centres=(cl, ca) if dl.get("centres", True) else None, source=source)
 
 
 def case_icon(ctx, case, sc):
@@ -772,14 +837,15 @@ def case_icon(ctx, case, sc):
     faces, n = case["faces"], len(case["lon"])
     edges, fe, ef = edges_of(faces)
     miss = dl["missing"]  # how a missing neighbour is stored: 0 or -1
-    voc = np.array([[v + 1 for v in f] for f in faces], dtype=np.int32).T.copy()
-    eoc = np.array([[e + 1 for e in r] for r in fe], dtype=np.int32).T.copy()
+    it = NP_STORE[dl.get("store", "i32")]
+    voc = np.array([[v + 1 for v in f] for f in faces], dtype=it).T.copy()
+    eoc = np.array([[e + 1 for e in r] for r in fe], dtype=it).T.copy()
     nb = []
     for fi, r in enumerate(fe):
         nb.append([next((g + 1 for g in ef[e] if g != fi), miss) for e in r])
-    nci = np.array(nb, dtype=np.int32).T.copy()
-    ace = np.array([[r[0] + 1, (r[1] + 1) if len(r) > 1 else miss] for r in ef], dtype=np.int32).T.copy()
-    ev = np.array([[a + 1, b + 1] for a, b in edges], dtype=np.int32).T.copy()
+    nci = np.array(nb, dtype=it).T.copy()
+    ace = np.array([[r[0] + 1, (r[1] + 1) if len(r) > 1 else miss] for r in ef], dtype=it).T.copy()
+    ev = np.array([[a + 1, b + 1] for a, b in edges], dtype=it).T.copy()
     xyz = xyz_of(case["lon"], case["lat"])
     ec = np.array([xyz[a] + xyz[b] for a, b in edges])
     ec /= np.linalg.norm(ec, axis=1, keepdims=True)
@@ -800,19 +866,21 @@ def case_icon(ctx, case, sc):
     if case.get("via_file"):
         path = sc.path(".nc")
         ds.to_netcdf(path)
-        src = path
+        src, source = path, None
     else:
-        src = ds
+        src = source = ds
     mt = common.Tok(d.ask("C01.icon", len(faces), enc_rows(voc.tolist()))).rows()
+    # expectations for the supplied tables, computed before any opening
+    wants = {name: common.Tok(d.ask("C01.icon", ncell, enc_rows(tab.tolist()))).rows()
+             for name, tab, ncell in (("edge_node_connectivity", ev, len(edges)), ("edge_face_connectivity", ace, len(edges)),
+                                      ("face_edge_connectivity", eoc, len(faces)), ("face_face_connectivity", nci, len(faces)))}
     exp = dict(faces=faces, lon=case["lon"], lat=case["lat"])
     g = judge(ctx, case, exp, lambda: ux.open_grid(src), mt, expect_n_node=n,
-              centres=(np.degrees(np.arctan2(cc[:, 1], cc[:, 0])), np.degrees(np.arcsin(np.clip(cc[:, 2], -1, 1)))))
+              centres=(np.degrees(np.arctan2(cc[:, 1], cc[:, 0])), np.degrees(np.arcsin(np.clip(cc[:, 2], -1, 1)))), source=source)
     if g is None:
         return
     cls_sig = sig_of(dict(fmt="icon", dialect=dialect_class(case)))
-    for name, tab, ncell in (("edge_node_connectivity", ev, len(edges)), ("edge_face_connectivity", ace, len(edges)),
-                             ("face_edge_connectivity", eoc, len(faces)), ("face_face_connectivity", nci, len(faces))):
-        want = common.Tok(d.ask("C01.icon", ncell, enc_rows(tab.tolist()))).rows()
+    for name, want in wants.items():
         try:
             v = np.asarray(g._ds[name].values) if name == "face_face_connectivity" else np.asarray(getattr(g, name).values)
             got, dt = [[int(x) for x in r] for r in v.tolist()], str(v.dtype)
@@ -958,7 +1026,7 @@ def gen_topology(rng, m):
 def gen_mpas(rng, m, dual=False):
     c = base_case("mpas", m, pad=rng.choice(["zeros", "repeat", "garbage"]), extra_w=rng.choice([0, 0, 1, 2]),
                   garbage=[rng.randrange(1 << 20) for _ in range(11)], dual=dual, tables=rng.random() < 0.6 and m.n_face <= 400,
-                  lon360=rng.random() < 0.7)
+                  lon360=rng.random() < 0.7, store=rng.choice(["i32", "i64"]), closed=bool(m.closed))
     c["via_file"] = rng.random() < 0.2
     return c
 
@@ -985,7 +1053,8 @@ def gen_exodus(rng, m):
         else:
             blocks.append(fs)
     rng.shuffle(blocks)
-    c = base_case("exodus", m, block_faces=blocks, blocks=len(blocks), coords=rng.choice(["coord", "coordxyz"]))
+    c = base_case("exodus", m, block_faces=blocks, blocks=len(blocks), coords=rng.choice(["coord", "coordxyz"]),
+                  store=rng.choice(["i32", "i64"]))
     c["faces"] = [f for b in blocks for f in b]
     c["via_file"] = rng.random() < 0.25
     return c
@@ -1019,7 +1088,7 @@ def gen_geos(rng):
 
 
 def gen_icon(rng, m):
-    c = base_case("icon", m, missing=rng.choice([0, -1]))
+    c = base_case("icon", m, missing=rng.choice([0, -1]), store=rng.choice(["i32", "i64"]))
     c["via_file"] = rng.random() < 0.2
     return c
 
